@@ -47,6 +47,13 @@ impl Ans {
 
 fn cos(r: UrlSpecificResources) -> Ans {
     let mut blocks: Vec<String> = r.injected_script.split("try {\n").map(|s| s.to_string()).collect();
+    // the prelude holds one line per function the scriptlets need, in no particular order (every
+    // function of this check's resources is a single line)
+    if let Some(first) = blocks.first_mut() {
+        let mut lines: Vec<&str> = first.lines().collect();
+        lines.sort();
+        *first = lines.join("\n");
+    }
     blocks.sort();
     Ans::Cos(
         r.hide_selectors.into_iter().collect(),
@@ -505,11 +512,14 @@ const S3_RULES: &[&str] = &[
     "x.com##.q:has-text(ad)",
     "@@||gh.com^$generichide",
     "gh.com##.own",
+    // resources that only the history can add (see `AddRejected` / `AddS9` / `AddNamed`)
+    "other.org##+js(s9alias)",
+    "other.org##+js(s9)",
 ];
 
 /// A second rule list for scenario 3: `LoadOther` swaps the engine between the two lists by
 /// loading the serialisation of the other one (every cosmetic answer changes).
-const S3_RULES_B: &[&str] = &["x.com##.other", "##.generic2", "##.generic3 > a", "x.com##+js(s2, w)", "@@||x.com^$generichide", "gh.com##.own2", "sub.x.com#@#.other"];
+const S3_RULES_B: &[&str] = &["x.com##.other", "##.generic2", "##.generic3 > a", "x.com##+js(s2, w)", "@@||x.com^$generichide", "gh.com##.own2", "sub.x.com#@#.other", "other.org##+js(s9alias)"];
 
 #[derive(Clone, Copy, Debug, PartialEq)]
 enum Op3 {
@@ -522,20 +532,48 @@ enum Op3 {
     AddDupResource,
     AlwaysDiscard,
     UseTagsX,
+    /// `add_resource` of `s9.js` with the aliases [`s9alias.js`, `s1.js`]: refused (the second
+    /// alias is taken), and must leave nothing behind
+    AddRejected,
+    /// `add_resource` of `s9.js` without aliases: accepted unless it is loaded already
+    AddS9,
+    /// `add_resource` of a resource *named* `s9alias.js`: accepted unless it is loaded already
+    AddNamed,
 }
 
 const S3_URLS: &[&str] = &["https://x.com/", "https://sub.x.com/", "https://gh.com/", "https://other.org/"];
 
 fn s3_ops() -> Vec<Op3> {
-    vec![Op3::Cos(0), Op3::Cos(1), Op3::Cos(2), Op3::Cos(3), Op3::Hidden, Op3::LoadOther, Op3::SerDeSame, Op3::SerDeFresh, Op3::ReloadResources, Op3::AddDupResource, Op3::AlwaysDiscard, Op3::UseTagsX]
+    vec![Op3::Cos(0), Op3::Cos(1), Op3::Cos(2), Op3::Cos(3), Op3::Hidden, Op3::LoadOther, Op3::SerDeSame, Op3::SerDeFresh, Op3::ReloadResources, Op3::AddDupResource, Op3::AlwaysDiscard, Op3::UseTagsX, Op3::AddRejected, Op3::AddS9, Op3::AddNamed]
+}
+fn s9(aliases: &[&str]) -> Resource {
+    vh::net::resource("s9.js", aliases, ResourceType::Mime(MimeType::ApplicationJavascript), "function s9(){ return 9 }", &[], 0)
+}
+fn s9named() -> Resource {
+    vh::net::resource("s9alias.js", &[], ResourceType::Mime(MimeType::ApplicationJavascript), "function named(){ return 1 }", &[], 0)
+}
+/// the resources the model says are loaded: the standard ones plus the accepted extras (bit 0:
+/// `s9.js`, bit 1: `s9alias.js`)
+fn s3_resources(extra: usize) -> Vec<Resource> {
+    let mut v = resources();
+    if extra & 1 != 0 {
+        v.push(s9(&[]));
+    }
+    if extra & 2 != 0 {
+        v.push(s9named());
+    }
+    v
 }
 fn is_query3(o: &Op3) -> bool {
     matches!(o, Op3::Cos(_) | Op3::Hidden)
 }
 fn s3_engine_of(which: usize) -> Engine {
+    s3_engine_with(which, 0)
+}
+fn s3_engine_with(which: usize, extra: usize) -> Engine {
     let mut e = Engine::from_rules_parametrised(if which == 0 { S3_RULES } else { S3_RULES_B }, Default::default(), true, true);
     e.set_regex_discard_policy(never());
-    e.use_resources(resources());
+    e.use_resources(s3_resources(extra));
     e
 }
 fn s3_engine() -> Engine {
@@ -555,30 +593,31 @@ fn s3_query(e: &Engine, o: &Op3) -> Ans {
 }
 struct S3 {
     ops: Vec<Op3>,
-    /// expected[which rule list is loaded][op index]
-    expected: [Vec<Option<Ans>>; 2],
+    /// expected[which rule list is loaded + 2 * accepted extra resources][op index]
+    expected: Vec<Vec<Option<Ans>>>,
     /// serialisations of fresh engines of the two rule lists
     buffers: [Vec<u8>; 2],
 }
 fn s3_prepare() -> S3 {
     let ops = s3_ops();
-    let exp = |which: usize| -> Vec<Option<Ans>> {
-        let e = s3_engine_of(which);
+    let exp = |which: usize, extra: usize| -> Vec<Option<Ans>> {
+        let e = s3_engine_with(which, extra);
         ops.iter().map(|o| if is_query3(o) { Some(s3_query(&e, o)) } else { None }).collect()
     };
-    let expected = [exp(0), exp(1)];
+    let expected: Vec<_> = (0..8).map(|k| exp(k % 2, k / 2)).collect();
     let buffers = [s3_engine_of(0).serialize_raw().unwrap(), s3_engine_of(1).serialize_raw().unwrap()];
     S3 { ops, expected, buffers }
 }
 fn s3_run(s: &S3, seq: &[usize], l: &mut Local) -> Option<(usize, String, String)> {
     let mut e = s3_engine();
     let mut which = 0usize;
+    let mut extra = 0usize;
     for (step, &oi) in seq.iter().enumerate() {
         let o = s.ops[oi];
         l.transitions += 1;
         if is_query3(&o) {
             let got = catch(|| s3_query(&e, &o));
-            let exp = s.expected[which][oi].as_ref().unwrap();
+            let exp = s.expected[which + 2 * extra][oi].as_ref().unwrap();
             l.compared += 1;
             l.hist(&format!("s3:{:?}:{}", o, exp.class()));
             match got {
@@ -590,6 +629,30 @@ fn s3_run(s: &S3, seq: &[usize], l: &mut Local) -> Option<(usize, String, String
         }
         if o == Op3::LoadOther {
             which = 1 - which;
+        }
+        // the additions answer too: accepted exactly when the model says the names are free
+        if matches!(o, Op3::AddRejected | Op3::AddS9 | Op3::AddNamed) {
+            let (res, want_ok) = match o {
+                Op3::AddRejected => (s9(&["s9alias.js", "s1.js"]), false),
+                Op3::AddS9 => (s9(&[]), extra & 1 == 0),
+                _ => (s9named(), extra & 2 == 0),
+            };
+            let got = catch(|| e.add_resource(res).is_ok());
+            l.compared += 1;
+            match got {
+                Ok(g) if g == want_ok => {}
+                Ok(g) => return Some((step, format!("add_resource accepted: {}", want_ok), format!("add_resource accepted: {}", g))),
+                Err(loc) => return Some((step, "no panic".into(), format!("panic@{}", loc))),
+            }
+            match o {
+                Op3::AddS9 => extra |= 1,
+                Op3::AddNamed => extra |= 2,
+                _ => {}
+            }
+            continue;
+        }
+        if matches!(o, Op3::SerDeFresh | Op3::ReloadResources) {
+            extra = 0;
         }
         let r = catch(|| match o {
             Op3::LoadOther => e.deserialize(&s.buffers[which]).unwrap(),
